@@ -32,15 +32,15 @@ def c20_streams(ctx):
 
 PLANS["C20"] = dict(
     translate=True,
-    modules=["Wx.Pure.Origins"],
-    theorems=["Wp.origins_exact", "Wp.origins_sublist", "Wp.types_exact", "Wp.typeMarkers_documented", "Wp.typeMarkers_are_originMarkers",
+    modules=["Wx.Pure.Origins", "Wx.Pure.OriginsThm"],
+    theorems=["Wp.origins_eq_doc", "Wp.types_eq_doc", "Wp.documentedS_typed", "Wp.origins_exact", "Wp.origins_sublist", "Wp.types_exact", "Wp.typeMarkers_documented", "Wp.typeMarkers_are_originMarkers",
               "Wp.originMarkers_recognised", "Wp.isVcs_documented", "Wp.isSoft_documented", "Wp.exactlyOne_holds", "Wp.classified", "Wp.all_complete"],
     bins=[("lib", ["wxtables"])],
     streams=c20_streams,
     sources=["crates/project-origins/src/lib.rs"],
     rule="a case is one directory chain on disk; non-trivial = at least one origin reported; distinct by (chain, observation)",
     assumptions=["DirList::obtain lists a directory as (name, file|dir) pairs — modelled as the Listing argument, exercised on a real filesystem",
-                 "the documented type-marker table and the recognised-marker list are transcribed by hand in Wx/Pure/Origins.lean"],
+                 "the documented type-marker table and the recognised-marker list are transcribed by hand in Wx/Pure/Origins.lean (the model the stream runs); Wx/Pure/OriginsThm.lean proves the regenerated tables equal to them"],
 )
 
 # ------------------------------------------------------------------------------------------------
@@ -62,7 +62,7 @@ def c19_streams(ctx):
 
 PLANS["C19"] = dict(
     translate=True,
-    modules=["Wx.Pure.Signals"],
+    modules=["Wx.Pure.Signals", "Wx.Pure.SignalsThm"],
     theorems=["Wp.display_parse", "Wp.posix_numbers", "Wp.spellings_agree", "Wp.only_stop_is_shadowed", "Wp.fromI32_fromNix",
               "Wp.exit_codes", "Wp.term_signals"],
     bins=[("lib", ["wxtables"])],
@@ -94,7 +94,7 @@ def c16_streams(ctx):
 
 PLANS["C16"] = dict(
     translate=True,
-    modules=["Wx.Pure.SerdeTag", "Wx.Pure.C16"],
+    modules=["Wx.Pure.SerdeTag", "Wx.Pure.C16", "Wx.Pure.SerdeTagThm", "Wx.Pure.C16Thm"],
     theorems=["Wp.kind_roundtrip", "Wp.kind_roundtrip_all", "Wp.table_rows_are_printed", "Wp.allKinds_complete",
               "Wp.decode_encode", "Wp.decode_total", "Wp.decode_wf"],
     bins=[("lib", ["wxtables"])],
@@ -517,7 +517,7 @@ def job_plan(pid, modules, theorems, rule_extra, partial=""):
         # an oracle failure is reported under the property it belongs to; others are left to that property's own check
         s.oracle_failures = [f for f in s.oracle_failures if f[3].startswith(f"[{pid}]")]
         return [s]
-    return dict(translate=True, modules=modules + ["Wx.Job.Api"], theorems=theorems + ["Jm.api_generated", "Jm.jobApi_documented"], bins=[("lib", ["wxjob"])], streams=streams,
+    return dict(translate=True, modules=modules + ["Wx.Job.Api", "Wx.Job.ApiThm"], theorems=theorems + ["Jm.api_generated", "Jm.jobApi_documented"], bins=[("lib", ["wxjob"])], streams=streams,
                 sources=["crates/supervisor/src/job/task.rs", "crates/supervisor/src/job/priority.rs", "crates/supervisor/src/job/state.rs", "crates/supervisor/src/job/job.rs",
                          "crates/supervisor/src/job/messages.rs", "crates/supervisor/src/flag.rs"],
                 rule="a case is one script (behaviour list + operation list); non-trivial = at least one child is spawned; distinct by (script body, implementation trace). " + rule_extra,
